@@ -24,10 +24,24 @@ func HarnessC15_Concurrent() {
 		data[0], data[30] = vU8(), vU8()
 		direct = true
 	} else {
-		data = vBytes(2 + vChoice(2))
+		n := 2
+		if vTier() == 1 {
+			n = 2 + vChoice(2)
+		}
+		data = vBytes(n)
 	}
-	pingData := vBytes(vChoice(2))
+	pingData := vBytes(1)
+	if vTier() == 1 {
+		pingData = vBytes(vChoice(2))
+	}
 	withClose := vChoice(2) == 1
+	// finite: the control senders pass a deadline two milliseconds ahead; waiting for the write lock may
+	// then time out (the symbolic run forks on the timer firing)
+	finite := vChoice(2) == 1
+	deadline := time.Time{}
+	if finite {
+		deadline = time.Now().Add(2 * time.Millisecond)
+	}
 	nctl := 1
 	if vTier() == 1 {
 		nctl = 1 + vChoice(2)
@@ -50,7 +64,7 @@ func HarnessC15_Concurrent() {
 			mt = PongMessage
 		}
 		go func() {
-			done <- c15Result{"ctl", c.WriteControl(mt, pingData, time.Time{})}
+			done <- c15Result{"ctl", c.WriteControl(mt, pingData, deadline)}
 		}()
 	}
 	if withClose {
@@ -114,6 +128,9 @@ func HarnessC15_Concurrent() {
 			dataErr = r.err
 		}
 		if r.err != nil {
+			if ne, ok := r.err.(*netError); ok && ne.timeout && finite && r.who == "ctl" {
+				continue // the control write gave up waiting for the write lock: nothing was written for it
+			}
 			vAssert(withClose && r.err == ErrCloseSent, "a write fails only because a close was sent, with the close-sent error")
 		}
 	}
